@@ -23,7 +23,7 @@ def configs(tier):
     q = tier == 'quick'
     out = []
     hi = 4 if q else 6
-    cap = 36 if q else 100
+    cap = 36 if q else 64        # thorough sized for about half an hour on 16 cores (exact products of (m n) x (M N) kernels)
     for m in range(1, hi + 1):
         for n in range(1, hi + 1):
             for Q in (1, 2, 3):
